@@ -126,6 +126,18 @@ def _edit(w, op, by_name, res, fp):
         new_lines = [list(x) for x in lines]
         new_lines[idx][1] = " " * n.indent + payload
         expect = "reject"
+    elif kind == "reindent_started":
+        # same text, other indentation: the line would belong to another scope
+        cands = [n for n in nodes if n.id in (started | executed) and n.kind in ("Mark", "Set1", "Set3") and not n.children]
+        if not cands:
+            fp.append("edit-none")
+            return
+        n = cands[k % len(cands)]
+        idx = next(i for i, (lid, _) in enumerate(lines) if lid == n.id)
+        new_lines = [list(x) for x in lines]
+        body = new_lines[idx][1].strip()
+        new_lines[idx][1] = (" " * (n.indent + 4) if (payload or 0) % 2 == 0 or n.indent == 0 else " " * (n.indent - 4)) + body
+        expect = "reject"
     elif kind == "same":
         new_lines = lines
     else:
